@@ -40,7 +40,7 @@ FLOORS = {'*': {'op:add': 300, 'op:add_named': 200, 'op:add_methods_fn': 100, 'o
                 're-registration': 100, 'probe:registered-name': 2000, 'probe:near-miss': 5000, 'probe:private-member': 1000,
                 'dispatcher:sync': 300, 'dispatcher:async': 300, 'view:static-member': 100, 'view:inherited-member': 100,
                 'same-prefix-merge': 20, 'view:derived-view': 50, 'probe:underscore-name': 100, 'name-given-as-str-subclass-object': 100,
-                'view:constructor-raises-KeyError': 50}}
+                'view:constructor-raises-KeyError': 50, 'op:add_deco_multi': 100}}
 
 PREFIXES = [None, 'a', 'a.b']
 FN_NAMES = ['alpha', 'beta', 'alpha', '_gamma']          # fn 0 and fn 2 collide on purpose; an own name may start with '_'
@@ -226,6 +226,13 @@ def run_history(ctx, ops, is_async):
                 else:
                     regs[r].add(fns[f], nm_obj)
                 put(model[r], join(PREFIXES[r], nm), f'fn{f}')
+            elif name == 'add_deco_multi':
+                # ONE decorator object obtained from registry.add(...) applied to several functions
+                _, r, fs = op
+                deco = regs[r].add()
+                for f in fs:
+                    deco(fns[f])
+                    put(model[r], join(PREFIXES[r], FN_NAMES[f]), f'fn{f}')
             elif name == 'add_methods_fn':
                 _, r, f = op
                 regs[r].add_methods(fns[f])
@@ -316,7 +323,7 @@ def run_history(ctx, ops, is_async):
     for bare in list(FN_NAMES) + ['pm', 'st', 'inherited'] + EXPLICIT:
         for pfx in prefixes_in_play:
             near.add(join(pfx, bare))
-    near = {n for n in near if n and n not in valid}
+    near = {n for n in near if n and n not in valid} | {''}      # the empty string is a name like any other that nobody registered
     private = {n for n in private if n not in valid}
 
     def ask(method):
@@ -368,6 +375,7 @@ def alphabet(reduced):
             ops.append(['add', r, f])
         ops.append(['add_named', r, 1, 'x.y'])
         ops.append(['add', r, 3])
+        ops.append(['add_deco_multi', r, [1, 3, 0]])
         ops.append(['view', r, 2, 'v'])
         ops.append(['view', r, 3, 'k'])
         if not reduced:
